@@ -78,6 +78,7 @@ class Impl:
         """execute one op; returns (outcome, extra) and updates the reference on success"""
         k = op['op']
         D = self.DFRA
+        self._impl_done = False
         try:
             if k == 'ctor':
                 data = {}
@@ -92,14 +93,24 @@ class Impl:
                     kw['dtype_conversion_except_fields'] = [fname(n) for n in op['exc']]
                 o = D(data, copy=op['copy'], **kw)
                 self.objs.append(o)
+                self._impl_done = True
                 cols = {}
+                dts = {}
                 for n, b in op['cols']:
                     cols[n] = b[1]
+                    dts[n] = b[0]
+                length = len(next(iter(cols.values()))) if cols else 0
+                convkeys = {a for a, _ in op['conv']}
                 names = [n for n in cols if op['keep'] is None or n in op['keep']]
-                lens = [len(cols[n]) for n in (cols if op['copy'] or any(a == b[0] for a, _ in op['conv'] for _, b in op['cols']) else names)]
-                nrows = lens[0] if lens else 0
-                rows = [{n: (cols[n][i] if len(cols[n]) == nrows else cols[n][0]) for n in names}
-                        for i in range(nrows if names else 0)]
+                vals = {}
+                for n in names:
+                    copied = op['copy'] or (n not in op['exc'] and dts[n] in convkeys)
+                    v = cols[n]
+                    if copied and len(v) != length and len(v) == 1:
+                        v = [v[0]] * length
+                    vals[n] = v
+                nrows = len(vals[names[0]]) if names else 0
+                rows = [{n: vals[n][i] for n in names} for i in range(nrows)]
                 self.refs.append({'names': names, 'rows': rows})
             elif k == 'from':
                 a = self.objs[op['src']]
@@ -114,6 +125,7 @@ class Impl:
                 else:
                     o = D(a, keep_fields=keep, copy=bool(op.get('copyflag')), **kw)
                 self.objs.append(o)
+                self._impl_done = True
                 r = self.refs[op['src']]
                 names = [n for n in r['names'] if op['keep'] is None or n in op['keep']]
                 rows = [{n: row.get(n) for n in names} for row in r['rows']] if names else []
@@ -123,6 +135,7 @@ class Impl:
                 sel = self.sel(op['sel'])
                 o = a[sel] if op.get('via_getitem') else a.get_selection(sel)
                 self.objs.append(o)
+                self._impl_done = True
                 r = self.refs[op['src']]
                 pos = self.positions(op['sel'], len(r['rows']))
                 rows = [dict(r['rows'][p]) for p in pos] if (r['names'] and not r.get('undefined')) else []
@@ -135,6 +148,7 @@ class Impl:
                     o[sel] = a
                 else:
                     o.set_selection(sel, a)
+                self._impl_done = True
                 r = self.refs[op['t']]
                 ra = self.refs[op['src']]
                 if ra.get('undefined'):
@@ -150,6 +164,7 @@ class Impl:
                 o = self.objs[op['t']]
                 a = self.objs[op['src']]
                 o.append(a)
+                self._impl_done = True
                 r = self.refs[op['t']]
                 ra = self.refs[op['src']]
                 if ra.get('undefined'):
@@ -163,6 +178,7 @@ class Impl:
                     o.append_field(fname(op['name']), data)
                 else:
                     o[fname(op['name'])] = data
+                self._impl_done = True
                 r = self.refs[op['t']]
                 if not r.get('undefined'):
                     if op['name'] not in r['names']:
@@ -173,6 +189,7 @@ class Impl:
                         row[op['name']] = v
             elif k == 'remove':
                 self.objs[op['t']].remove_field(fname(op['name']))
+                self._impl_done = True
                 r = self.refs[op['t']]
                 if not r.get('undefined'):
                     r['names'].remove(op['name'])
@@ -180,6 +197,7 @@ class Impl:
                         del row[op['name']]
             elif k == 'rename':
                 self.objs[op['t']].rename_fields({fname(a): fname(b) for a, b in op['conv']}, must_exist=op['must'])
+                self._impl_done = True
                 r = self.refs[op['t']]
                 m = {a: b for a, b in op['conv'] if a in r['names']}
                 new_names = [m.get(n, n) for n in r['names']]
@@ -192,6 +210,7 @@ class Impl:
                     r['undefined'] = True      # not a plain-table operation: the reference gives up on this object
             elif k == 'tidy':
                 self.objs[op['t']].tidy_up([fname(n) for n in op['keep']])
+                self._impl_done = True
                 r = self.refs[op['t']]
                 if not r.get('undefined'):
                     r['names'] = [n for n in r['names'] if n in op['keep']]
@@ -199,6 +218,7 @@ class Impl:
             elif k == 'sort':
                 o = self.objs[op['t']]
                 idx = o.sort_by_field(fname(op['name']))
+                self._impl_done = True
                 perm = [int(i) for i in idx]
                 op['perm'] = perm
                 r = self.refs[op['t']]
@@ -224,6 +244,15 @@ class Impl:
             else:
                 raise AssertionError(k)
         except (KeyError, ValueError, IndexError, TypeError) as ex:
+            if self._impl_done:
+                # the exception comes from the reference bookkeeping, not from skyllh: the
+                # reference gives up on the tables involved (never blame the implementation)
+                while len(self.refs) < len(self.objs):
+                    self.refs.append({'names': [], 'rows': [], 'undefined': True})
+                if 't' in op and op['t'] < len(self.refs):
+                    self.refs[op['t']]['undefined'] = True
+                self.ref_gave_up = getattr(self, 'ref_gave_up', 0) + 1
+                return 'Done', None
             return type(ex).__name__, None
         return 'Done', None
 
@@ -406,6 +435,31 @@ def predicates(ctx, impl, ops, stepno, outcome, extra, before):
                 ctx.violation(site, 'rows-misaligned', f'object {oi} column {nm}: {str(col)[:80]} expected {str(want)[:80]}',
                               case=case, impl=obs[oi], predicate='every column equals the plain table column (rows aligned)')
                 break
+    # public accessors agree with the state (checked on every live object)
+    for oi, o in enumerate(impl.objs):
+        try:
+            ok = True
+            names = list(o._data_fields.keys())
+            for nm in [fname(i) for i in range(8)]:
+                if (nm in o) != (nm in names):
+                    ok = False
+            for nm in names:
+                if o[nm] is not o._data_fields[nm] or o.get_field_dtype(nm) != o._data_fields[nm].dtype:
+                    ok = False
+            if all(len(a) == len(o) for a in o._data_fields.values()) and o.field_name_list == names:
+                rec = o.as_numpy_record_array()
+                if list(rec.dtype.names or []) != names or len(rec) != (len(o) if names else len(rec)):
+                    ok = False
+                for nm in names:
+                    if rec[nm].dtype != o._data_fields[nm].dtype or rec[nm].tolist() != o._data_fields[nm].tolist():
+                        ok = False
+            if not ok:
+                ctx.violation(site, 'accessor-inconsistent', f'object {oi}: __contains__/__getitem__/get_field_dtype/'
+                              'as_numpy_record_array disagree with the data fields', case=case, impl=obs[oi],
+                              predicate='public accessors reflect the table')
+        except Exception as ex:          # an accessor that raises on a consistent table
+            ctx.violation(site, 'accessor-raises', f'object {oi}: {type(ex).__name__}: {ex}', case=case, impl=obs[oi],
+                          predicate='public accessors work on every reachable table')
     pat = share_pattern(arrays)
     if pat:
         ctx.violation(site, 'shared-memory', f'column arrays share memory: positions {pat[:4]}',
@@ -473,6 +527,8 @@ def run_sequence(ctx, DFRA, ops_or_gen, maxlen=None, stop_on_fail=False):
         before = obs
         if stop_on_fail and outcome != 'Done':
             break
+    if getattr(impl, 'ref_gave_up', 0):
+        ctx.count('reference_bookkeeping_gave_up', impl.ref_gave_up)
     return ops, trace
 
 
